@@ -468,7 +468,7 @@ def repo_state():
         return {"error": str(e)}
 
 
-def write_evidence(pid, tier, seed, level, coverage, wall_s, violations, assumptions):
+def write_evidence(pid, tier, seed, level, coverage, wall_s, violations, assumptions, alt=False):
     os.makedirs(os.path.join(VERIF, "evidence"), exist_ok=True)
     ev = {
         "property_id": pid,
@@ -482,7 +482,7 @@ def write_evidence(pid, tier, seed, level, coverage, wall_s, violations, assumpt
         "repo": repo_state(),
     }
     edir = os.path.join(VERIF, "evidence")
-    if os.path.realpath(REPO) != "/repo":
+    if alt or os.path.realpath(REPO) != "/repo":
         # a run against a private worktree (mutation testing through VERIF_REPO) must not overwrite the
         # evidence of /repo itself
         edir = os.path.join(VERIF, "build", "evidence-alt")
@@ -531,7 +531,9 @@ class Ctx:
 
     def violation(self, payload, no_input=False):
         n = len(self.violations)
-        path = write_replay(self.pid, self.seed, n, payload)
+        # a replay run must never overwrite the replay file it was given
+        tag = ("%s-replay" % self.seed) if self.replay else self.seed
+        path = write_replay(self.pid, tag, n, payload)
         self.violations.append((path, no_input))
         return path
 
